@@ -33,3 +33,12 @@ WRAP int w_kll_general_compress(uint16_t k, uint8_t m, uint8_t num_levels_in, in
 }
 WRAP void w_kll_halve_down(int32_t* buf, uint32_t start, uint32_t length) { kll_helper::randomly_halve_down(buf, start, length); }
 WRAP void w_kll_halve_up(int32_t* buf, uint32_t start, uint32_t length) { kll_helper::randomly_halve_up(buf, start, length); }
+// value semantics (C19)
+WRAP K* w_kll_copy(const K* s) { try { return new K(*s); } catch (...) { return nullptr; } }
+WRAP K* w_kll_move(K* s) { try { return new K(std::move(*s)); } catch (...) { return nullptr; } }
+WRAP int w_kll_assign(K* d, const K* s) { try { *d = *s; return 0; } catch (...) { return 1; } }
+WRAP int w_kll_move_assign(K* d, K* s) { try { *d = std::move(*s); return 0; } catch (...) { return 1; } }
+WRAP Qs* w_qs_copy(const Qs* s) { try { return new Qs(*s); } catch (...) { return nullptr; } }
+WRAP Qs* w_qs_move(Qs* s) { try { return new Qs(std::move(*s)); } catch (...) { return nullptr; } }
+WRAP int w_qs_assign(Qs* d, const Qs* s) { try { *d = *s; return 0; } catch (...) { return 1; } }
+WRAP int w_qs_move_assign(Qs* d, Qs* s) { try { *d = std::move(*s); return 0; } catch (...) { return 1; } }
